@@ -147,6 +147,60 @@ def joint_reaches(join, hw, theta):
     return bevel, miter * 1.05               # SMOOTH: a Hobby curve between the bevel chord and the miter point
 
 
+def apply_caps(m, hw_start, hw_end, el):
+    """append the two caps (and the pieces of positive extensions) to a model whose pieces run from start to end"""
+    hw = [hw_start, hw_end]
+    # caps
+    end = el["end"]
+    for which in (0, 1):
+        piece = m.pieces[0] if which == 0 else m.pieces[-1]
+        h = hw[0] if which == 0 else hw[-1]
+        E = piece[0] if which == 0 else piece[1]
+        t = unit((piece[1][0] - piece[0][0], piece[1][1] - piece[0][1]))
+        outward = (-t[0], -t[1]) if which == 0 else t
+        ext = 0.0
+        if end == E_HALF:
+            ext = h
+        elif end == E_EXT:
+            ext = el["ext"][which]
+        if ext != 0.0:
+            E2 = (E[0] + outward[0] * ext, E[1] + outward[1] * ext)
+            if ext > 0:
+                if which == 0:
+                    m.pieces.insert(0, (E2, E, h, h))
+                    for j in m.joints:
+                        j["pieces"] = [i + 1 for i in j["pieces"]]
+                else:
+                    m.pieces.append((E, E2, h, h))
+            else:
+                # shorten from that end, dropping whole pieces of a densified centre line where needed
+                rest = -ext
+                while True:
+                    piece = m.pieces[0] if which == 0 else m.pieces[-1]
+                    L = math.hypot(piece[1][0] - piece[0][0], piece[1][1] - piece[0][1])
+                    if rest < 0.8 * L:
+                        break
+                    if len(m.pieces) <= 3:
+                        raise Degenerate("negative extension consumes the end segment")
+                    rest -= L
+                    if which == 0:
+                        m.pieces.pop(0)
+                        for j in m.joints:
+                            j["pieces"] = [i - 1 for i in j["pieces"]]
+                    else:
+                        m.pieces.pop()
+                rest = max(rest, 0.0)
+                tt = unit((piece[1][0] - piece[0][0], piece[1][1] - piece[0][1]))
+                if which == 0:
+                    E2 = (piece[0][0] + tt[0] * rest, piece[0][1] + tt[1] * rest)
+                    m.pieces[0] = (E2, piece[1], piece[2], piece[3])
+                else:
+                    E2 = (piece[1][0] - tt[0] * rest, piece[1][1] - tt[1] * rest)
+                    m.pieces[-1] = (piece[0], E2, piece[2], piece[3])
+            E = E2
+        m.caps.append({"E": E, "t": outward, "hw": h, "end": end, "ext": ext})
+
+
 def build(spine, hw, off, el, tol, bends_fit=None):
     """spine: list of points; hw/off: per spine point; el: dict(join, end, ext, bend, radius).  bends_fit: optional list collecting
     per joint "fit"/"nofit"/"ambiguous" decisions."""
@@ -220,38 +274,7 @@ def build(spine, hw, off, el, tol, bends_fit=None):
         J = j["J"]
         adj = [i for i, p in enumerate(m.pieces) if math.hypot(p[0][0] - J[0], p[0][1] - J[1]) < 1e-9 or math.hypot(p[1][0] - J[0], p[1][1] - J[1]) < 1e-9]
         j["pieces"] = adj
-    # caps
-    end = el["end"]
-    for which in (0, 1):
-        piece = m.pieces[0] if which == 0 else m.pieces[-1]
-        h = hw[0] if which == 0 else hw[-1]
-        E = piece[0] if which == 0 else piece[1]
-        t = unit((piece[1][0] - piece[0][0], piece[1][1] - piece[0][1]))
-        outward = (-t[0], -t[1]) if which == 0 else t
-        ext = 0.0
-        if end == E_HALF:
-            ext = h
-        elif end == E_EXT:
-            ext = el["ext"][which]
-        if ext != 0.0:
-            E2 = (E[0] + outward[0] * ext, E[1] + outward[1] * ext)
-            if ext > 0:
-                if which == 0:
-                    m.pieces.insert(0, (E2, E, h, h))
-                    for j in m.joints:
-                        j["pieces"] = [i + 1 for i in j["pieces"]]
-                else:
-                    m.pieces.append((E, E2, h, h))
-            else:
-                L = math.hypot(piece[1][0] - piece[0][0], piece[1][1] - piece[0][1])
-                if -ext >= 0.8 * L:
-                    raise Degenerate("negative extension consumes the end segment")
-                if which == 0:
-                    m.pieces[0] = (E2, piece[1], piece[2], piece[3])
-                else:
-                    m.pieces[-1] = (piece[0], E2, piece[2], piece[3])
-            E = E2
-        m.caps.append({"E": E, "t": outward, "hw": h, "end": end, "ext": ext})
+    apply_caps(m, hw[0], hw[-1], el)
     m.finish()
     return m
 
